@@ -4,6 +4,8 @@ use vstd::prelude::*;
 use vstd::arithmetic::power2::*;
 use vstd::arithmetic::div_mod::*;
 
+macro_rules! ice { ($($t:tt)*) => { panic!("ice") } }
+
 verus! {
 
 // ---------------------------------------------------------------- specification vocabulary
